@@ -7,7 +7,7 @@ D=$(mktemp -d /var/tmp/pyyeti-try-XXXXXX)
 cp -r /repo/pyyeti "$D/"; find "$D" -name __pycache__ -prune -exec rm -rf {} +
 if [ -d "$SRC" ]; then git -C "$SRC" diff > "$D/p.diff"; else cp "$SRC" "$D/p.diff"; fi
 patch -p1 -s -d "$D" -i "$D/p.diff" || { echo "patch failed"; rm -rf "$D"; exit 2; }
-VERIF_REPO=$D VERIF_OUT_DIR=$D/out VERIF_NOSHRINK=1 "$V/vcheck" "$ID" "$TIER" 2>&1 | grep -v "^VIOLATION" | cut -c1-260 | tail -8
+VERIF_REPO=$D VERIF_OUT_DIR=$D/out VERIF_NOSHRINK=1 "$V/vcheck" "$ID" "$TIER" 2>&1 | grep -v "^VIOLATION" | cut -c1-260 | tail -40
 rc=${PIPESTATUS[0]}
 rm -rf "$D"
 echo "rc=$rc"
